@@ -715,7 +715,7 @@ func runContinuity(c *engine.Ctx) engine.Result {
 	nrand := c.Pick(200, 5000)
 	lifetimes := []int64{3600, 14 * 86400, 3650 * 86400}
 	for i := 0; i < nrand; i++ {
-		L := lifetimes[rng.Intn(3)]
+		L := lifetimes[rng.Intn(len(lifetimes))]
 		sk := []int64{0, L / 1000, L / 50, L / 10}[rng.Intn(4)]
 		S := L + 2*sk
 		iv := int64(float64(S) * (0.1 + 0.8*rng.Float64()))
